@@ -37,7 +37,7 @@ M = [
  ('m-c10-pad3', 'C10', [('src/ssh_audit/ssh_socket.py', "        if padding < 4:\n            padding += 8", "        if padding < 3:\n            padding += 8")], 'minimum padding 3'),
  ('m-c10-plen', 'C10', [('src/ssh_audit/ssh_socket.py', "        padding = -(len(payload) + 5) % 8", "        padding = -(len(payload) + 4) % 8")], 'padding computed without the padding-length byte'),
  ('m-c10-probe-lang', 'C10', [('src/ssh_audit/gextest.py', "compressions=kex.server.compression, languages=kex.server.languages)", "compressions=kex.server.compression)")], 'GEX probe KEXINIT does not echo the language list'),
- ('m-c11-3071', 'C11', [('src/ssh_audit/hostkeytest.py', "                    hostkey_min_good = cakey_min_good = 3072", "                    hostkey_min_good = cakey_min_good = 3071")], 'good threshold 3071 (off-grid; expected to be missed on the 64-bit grid)'),
+ ('m-c11-3071', 'C11', [('src/ssh_audit/hostkeytest.py', "                    hostkey_min_good = cakey_min_good = 3072", "                    hostkey_min_good = cakey_min_good = 3071")], 'good threshold 3071 (a 3071-bit key loses its warning; visible since C11 ranges over arbitrary sizes)'),
  ('m-c11-warn2047', 'C11', [('src/ssh_audit/hostkeytest.py', "                    hostkey_min_warn = cakey_min_warn = 2048", "                    hostkey_min_warn = cakey_min_warn = 2049")], '2048-bit keys rated as failures'),
  ('m-c11-fanout', 'C11', [('src/ssh_audit/hostkeytest.py', "                        db['key'][rsa_type][1].extend(key_fail_comments)\n                        db['key'][rsa_type][2].extend(key_warn_comments)", "                        if rsa_type == host_key_type:\n                            db['key'][rsa_type][1].extend(key_fail_comments)\n                            db['key'][rsa_type][2].extend(key_warn_comments)")], 'size notes only on the probed RSA name'),
  ('m-c11-fp-reply', 'C11', [('src/ssh_audit/ssh_audit.py', "                fp = Fingerprint(cast(bytes, host_keys[host_key_type]['raw_hostkey_bytes']))\n\n                # Workaround", "                fp = Fingerprint(cast(bytes, host_keys[host_key_type]['raw_hostkey_bytes'])[4:])\n\n                # Workaround")], 'text fingerprint over the blob minus its first length field'),
@@ -85,7 +85,6 @@ M = [
 THOROUGH_ONLY = {'m-c07-racy-global'}     # races between two lines: found by line-level pre-emption, a thorough-tier matter
 
 EQUIVALENT = {
- 'm-c11-3071': 'no RSA size on the 64-bit grid of the quantifier lies between 3071 and 3072',
  'm-c12-early-exit': 'only adds one redundant probe whose answer cannot be smaller for a monotone policy; the reported size is unchanged',
  'm-c12-bytes': 'every modulus size of the quantifier is a multiple of 8',
  'm-c13-version': 'no MAC can be recommended for addition (non-ETM MACs carry a warning, unadvertised ETM MACs are suppressed) and extra removals are allowed by the statement',
